@@ -290,7 +290,7 @@ class Render:
         self.body(n[2], indent + 1)
         o = n[3]
         if o is not None:
-            if self.cos and self.rng.random() < 0.25:
+            if getattr(self, "cos", False) and self.rng.random() < 0.25:
                 # a comment line at CLAUSE indentation between two clauses: a child of the if statement in the concrete syntax tree
                 self.lines.append("    " * indent + "# next clause %d" % self.rng.randrange(1000))
             if o[0] == "elif":
@@ -498,7 +498,7 @@ class Instr:
         self.body(n[2], indent + 1)
         o = n[3]
         if o is not None:
-            if self.cos and self.rng.random() < 0.25:
+            if getattr(self, "cos", False) and self.rng.random() < 0.25:
                 # a comment line at CLAUSE indentation between two clauses: a child of the if statement in the concrete syntax tree
                 self.lines.append("    " * indent + "# next clause %d" % self.rng.randrange(1000))
             if o[0] == "elif":
